@@ -14,6 +14,7 @@
 #include <errno.h>
 
 static int profile;
+static unsigned char lastkey[32]; static size_t lastkn; static int lastlive;       /* key returned by the latest getnext (for rmnext) */
 static int upper;           /* profile 4: spelling used by the current call */
 #define STRKEYS (profile == 0 || profile == 3 || profile == 4)
 static long cmps;
@@ -233,12 +234,26 @@ int main(int argc, char **argv) {
                 if (ts) T->unlock(T);
                 if (ok) {
                     rk = keyid(cur.name, cur.namesize); rv = valid_(cur.data, cur.datasize);
+                    lastkn = cur.namesize < sizeof lastkey ? cur.namesize : 0; memcpy(lastkey, cur.name, lastkn); lastlive = 1;
                     if (newmem) {
                         if (cur.name) keep(cur.name, rk, cur.namesize, 1);
                         if (cur.data) keep(cur.data, rv, cur.datasize, 0);
                     }
-                } else if (errno != ENOMEM) memset(&cur, 0, sizeof cur);     /* after a failed copy the same call is simply repeated */
-            } else if (!strcmp(op, "abandon")) { memset(&cur, 0, sizeof cur); }
+                } else if (errno != ENOMEM) { memset(&cur, 0, sizeof cur); lastlive = 0; }     /* after a failed copy the same call is simply repeated */
+            } else if (!strcmp(op, "rmnext") && !lastlive) {
+                strcpy(op, "skip");         /* random histories cannot know where a sweep with removals ends: nothing to remove */
+            } else if (!strcmp(op, "rmnext")) {
+                lastlive = 0;
+                /* the documented "removal in an iteration loop": remove the key the last getnext returned, then rewind with
+                 * find_nearest on that key and go on calling getnext */
+                if (ts) T->lock(T);
+                a = keyid(lastkey, lastkn);
+                ok = lastkn ? T->removeobj(T, lastkey, lastkn) : 0;
+                cur = T->find_nearest(T, lastkey, lastkn, false);
+                if (ts) T->unlock(T);
+                rk = cur.name ? keyid(cur.name, cur.namesize) : 0;
+                rv = cur.name ? valid_(cur.data, cur.datasize) : 0;
+            } else if (!strcmp(op, "abandon")) { memset(&cur, 0, sizeof cur); lastlive = 0; }
             else if (!strcmp(op, "nearest")) {
                 qtreetbl_obj_t r = T->find_nearest(T, kb, kn, newmem);
                 ok = r.name != NULL;
